@@ -33,7 +33,12 @@ try:
         rc, out = run("cargo test --offline --workspace --no-fail-fast 2>&1 | grep -E '^test result|warning: unused|^error' ", cwd=wt, timeout=3000)
         res["suite_with_change"] = out.strip().splitlines()
         demo = f"{base}/out/demo{n}"
-        if not os.path.isfile(f"{demo}/Cargo.toml") and os.path.isfile(f"{base}/demo{n}/Cargo.toml"):
+        def dep_ok(d):
+            import re
+            try: m = re.search(r'graaf\s*=\s*\{[^}]*path\s*=\s*"([^"]+)"', open(f"{d}/Cargo.toml").read())
+            except OSError: return False
+            return bool(m) and os.path.isdir(os.path.join(d, m.group(1)))
+        if not dep_ok(demo) and dep_ok(f"{base}/demo{n}"):
             demo = f"{base}/demo{n}"          # some seeders left the buildable copy beside out/
         res["demo_dir"] = demo
         mode = []
